@@ -45,6 +45,12 @@ pub const ATOMS: &[&str] = &[
     "\t", "\0", "é", "€", "😆",
 ];
 
+/// a second alphabet that stays inside (unterminated, escaped, interpolated, multi-byte) string
+/// literals, where the lexer keeps cursors across several steps
+pub const STRING_ATOMS: &[&str] = &[
+    "\"", "\\t", "\\\"", "\\\\", "\\", "\\q", "é", "好", "😀", "x", " ", "\n", "\r", "{", "}", "{x}", "#", "'",
+];
+
 fn check_text(ctx: &Ctx, text: &str) -> Outcome {
     match drive::front_total(ctx, text) {
         Ok(st) => Outcome::ok(
@@ -59,13 +65,14 @@ fn check_text(ctx: &Ctx, text: &str) -> Outcome {
 }
 
 struct AtomSpace {
+    name: &'static str,
     profile: Profile,
     strings: Strings,
 }
 
 impl Space for AtomSpace {
     fn id(&self) -> String {
-        format!("atoms-le{}-{}", self.strings.max_len, self.profile.dir())
+        format!("{}-le{}-{}", self.name, self.strings.max_len, self.profile.dir())
     }
     fn size(&self) -> u64 {
         self.strings.count()
@@ -100,7 +107,7 @@ struct Corpus {
 
 fn corpus_files(thorough: bool) -> Vec<(String, String)> {
     let mut v = Vec::new();
-    for dir in ["/repo/examples", "/repo/tests/stress"] {
+    for dir in [format!("{}/examples", crate::util::repo_root()), format!("{}/tests/stress", crate::util::repo_root())] {
         if let Ok(rd) = std::fs::read_dir(dir) {
             let mut files: Vec<_> = rd.flatten().map(|e| e.path()).collect();
             files.sort();
@@ -439,8 +446,10 @@ impl Space for Nesting {
 pub fn spaces(tier: Tier) -> Vec<Box<dyn Space>> {
     let t = tier == Tier::Thorough;
     let mut v: Vec<Box<dyn Space>> = Vec::new();
-    v.push(Box::new(AtomSpace { profile: Profile::Poison, strings: Strings::new(ATOMS, if t { 4 } else { 3 }) }));
-    v.push(Box::new(AtomSpace { profile: Profile::Fast, strings: Strings::new(ATOMS, if t { 5 } else { 4 }) }));
+    v.push(Box::new(AtomSpace { name: "atoms", profile: Profile::Poison, strings: Strings::new(ATOMS, if t { 4 } else { 3 }) }));
+    v.push(Box::new(AtomSpace { name: "atoms", profile: Profile::Fast, strings: Strings::new(ATOMS, if t { 5 } else { 4 }) }));
+    v.push(Box::new(AtomSpace { name: "string-atoms", profile: Profile::Poison, strings: Strings::new(STRING_ATOMS, if t { 5 } else { 4 }) }));
+    v.push(Box::new(AtomSpace { name: "string-atoms", profile: Profile::Fast, strings: Strings::new(STRING_ATOMS, if t { 7 } else { 5 }) }));
     let files = corpus_files(t);
     v.push(Box::new(Corpus { profile: Profile::Poison, files: files.clone(), double: false }));
     if t {
